@@ -79,3 +79,12 @@ PY
   ( cd "$VERIF_DIR/harness" && go build -modfile="$BUILD/go.mod" -overlay "$BUILD/overlay_sched.json" -tags verif -o "$BUILD/rdmsched" ./cmd/rdmcheck )
   ( cd "$VERIF_DIR/harness" && CGO_ENABLED=1 go build -race -modfile="$BUILD/go.mod" -overlay "$BUILD/overlay_plain.json" -o "$BUILD/rdmrace" ./cmd/rdmcheck )
 }
+
+# build_server: the service binary exactly as shipped (httpClient/main.go, package main), with lib replaced by the
+# working tree; nothing is written into $REPO (alternate go.mod / go.sum under $BUILD).
+build_server() {
+  cp "$REPO/httpClient/go.mod" "$BUILD/server.mod"
+  echo "replace github.com/Azbesciak/RealDecisionMaker/lib => $REPO/lib" >> "$BUILD/server.mod"
+  cat "$REPO/httpClient/go.sum" "$REPO/lib/go.sum" | sort -u > "$BUILD/server.sum"
+  ( cd "$REPO/httpClient" && go build -modfile="$BUILD/server.mod" -o "$BUILD/rdmserver" . )
+}
